@@ -628,8 +628,12 @@ func (w *World) classify(e Event, r Resp) RespObs {
 func (w *World) Step(e Event) (RespObs, *Req, Resp) {
 	e.Norm()
 	switch e.Act {
-	case "Tick":
+	case "Tick": // whole ticks
 		w.In.Tick(e.D)
+		w.Now += G * e.D
+		return envResp(), nil, Resp{}
+	case "Tock": // single units
+		w.In.Advance(e.D)
 		w.Now += e.D
 		return envResp(), nil, Resp{}
 	case "AdminLock":
